@@ -224,6 +224,8 @@ package datastore
 //@   noeffect
 //@   ensures r1 == nil ==> r0 != nil && isPathOf(r0, path)
 //@   ensures r1 == nil ==> addressesRoot(path) == (len(r0.GetElem()) == 0 || (len(r0.GetElem()) == 1 && r0.GetElem()[0].GetName() == ""))
+//@ iface (cache.Client).Read
+//@   noeffect
 //@ iface (cache.Client).ReadCh
 //@   noeffect
 //@   ensures never_hands_out_nil_updates: nonnilchan(result)
@@ -392,6 +394,10 @@ package datastore
 //@   loop 9 invariant updates_after_starts: midCycle(old(ntrace()), dm)
 //@   loop 1 invariant updates_after_starts_unhandled: midCycle(old(ntrace()), dm)
 //@   loop 1 invariant unhandled_only_without_intents [C15]: len(callres(Read)) == 0
+// the intents compared are those of every priority of the running path, whoever owns them
+//@   loop 1 invariant the_intents_of_every_priority_are_read [C15]: callarg(Read, 0, 3) != nil && callarg(Read, 0, 3).Store == 2 &&
+//@            callarg(Read, 0, 3).Priority == 0 && callarg(Read, 0, 3).Owner == "" && callarg(Read, 0, 3).PriorityCount == 2147483647 &&
+//@            len(callarg(Read, 0, 4)) == 1
 //@   loop 2 invariant updates_after_starts_not_applied: midCycle(old(ntrace()), dm)
 //@   loop 2 invariant not_applied_only_when_running_differs [C15]: len(callres(Read)) > 0 && !callres(EqualTypedValues, 0) &&
 //@            callarg(EqualTypedValues, 0, 0) == callres(TypedValueToYANGType, 0, 0) && callarg(EqualTypedValues, 0, 1) == callres(Value, 0, 0)
